@@ -10,12 +10,15 @@ import DDS.Driver.Util
 import DDS.Driver.StoreOps
 import DDS.Driver.CodecOps
 import DDS.Driver.SketchOps
+import DDS.Driver.DatasetOps
+import DDS.Driver.MapOps
 
 namespace DDS.Driver
 
 structure State where
   stores : StoreOps.Tbl := {}
   sketches : SketchOps.Tbl := {}
+  datasets : DatasetOps.Tbl := []
 
 def step (st : State) (line : String) : State × Option String :=
   let toks := Util.tokens line
@@ -31,6 +34,10 @@ def step (st : State) (line : String) : State × Option String :=
     else if SketchOps.isSketchCmd cmd then
       let (t, out) := SketchOps.run st.sketches cmd args
       ({ st with sketches := t }, some out)
+    else if MapOps.isMapCmd cmd then (st, some (MapOps.run args cmd))
+    else if DatasetOps.isDatasetCmd cmd then
+      let (t, out) := DatasetOps.run st.datasets cmd args
+      ({ st with datasets := t }, some out)
     else (st, some "bad-op")
 
 partial def loop (h : IO.FS.Stream) (out : IO.FS.Stream) (st : State) : IO Unit := do
